@@ -11,10 +11,15 @@ import (
 // reports whether it (still) violates the property.
 var Replayers = map[string]func(c *core.Ctx, rp *core.Replay) (bool, string){}
 
+// Runners maps a property to its check.
+var Runners = map[string]func(c *core.Ctx) int{}
+
 // Preparers build what a property's replayer needs (instrumented binaries etc.).
 var Preparers = map[string]func(c *core.Ctx){}
 
 func init() {
+	Runners["C06"] = RunC06
+	Runners["C09"] = RunC09
 	Replayers["C06"] = ReplayC06
 	Preparers["C06"] = func(c *core.Ctx) { c.PrepareRepo(true) }
 }
